@@ -421,3 +421,88 @@ func VerifC15Expiry() {
 	verifAssert(err == nil, "C15.campaign-error")
 	verifAssert((role == RoleLeader) == (dt >= int64(ttl)), "C15.takeover-exactly-after-ttl")
 }
+
+// verifSlowStore: a lease store whose reply to the first command is still on the wire when the
+// caller's deadline passes: the command is executed at the store, then the caller's context is
+// cancelled and everything else that can run runs, and only then the reply is delivered.
+type verifSlowStore struct {
+	*verifLeaseStore
+	slowCall int // the n-th Do (1-based) is answered late; 0 = none
+	calls    int
+	expire   func()
+}
+
+func (s *verifSlowStore) Do(cmd string, args ...interface{}) (interface{}, error) {
+	s.calls++
+	rep, err := s.verifLeaseStore.Do(cmd, args...)
+	if s.calls == s.slowCall {
+		s.expire()
+		verifSettle()
+	}
+	return rep, err
+}
+
+// VerifC15LateReply: two successive election calls of one instance on one election object (built by
+// the real NewElection). The reply of the first call may arrive only after the caller's deadline;
+// then time passes at the store and another instance campaigns. Whatever the second call reports
+// must be the store's verdict on the second call: told leader => the lease is the caller's and
+// unexpired at that moment; a refused renewal is ErrNotLeader.
+func VerifC15LateReply() {
+	st := &verifLeaseStore{}
+	st.now = verifI64("t0")
+	verifAssume(verifAnd(st.now >= 0, st.now < 1<<40))
+	ttl := verifInt("ttl")
+	verifAssume(verifAnd(ttl >= 1, ttl <= 600))
+	if verifChoose("held", 2) == 1 { // A holds the lease already (it is leader and renews)
+		st.exists, st.value = true, "A"
+		st.expireAt = verifI64("expireAt")
+		verifAssume(verifAnd(st.expireAt > st.now, st.expireAt <= st.now+int64(ttl)))
+	}
+	slow := &verifSlowStore{verifLeaseStore: st}
+	rc := &redisCluster{redisCli: slow, ttl: ttl, ctx: context.Background(), cancel: func() {}}
+	e := rc.NewElection(context.Background(), "lease", "A")
+
+	call := func(op int, ctx context.Context) (bool, error) {
+		st.cmdInCall = 0
+		if op == 0 {
+			role, err := e.Campaign(ctx)
+			return err == nil && role == RoleLeader, err
+		}
+		err := e.Renew(ctx)
+		return err == nil, err
+	}
+	ctx1, cancel1 := context.WithCancel(context.Background())
+	slow.expire = cancel1
+	if verifChoose("late", 2) == 1 {
+		slow.slowCall = 1
+	}
+	told1, _ := call(verifChoose("op1", 2), ctx1)
+	if st.badLua != "" {
+		verifUnsupported("election talks to the store outside the modelled command/script subset: " + st.badLua)
+	}
+	if told1 {
+		verifAssert(st.live() && st.value == "A", "C15.told-leader-without-own-lease")
+	}
+	cancel1()
+	// time passes; another instance campaigns and gets the lease if it is free
+	dt := verifI64("dt")
+	verifAssume(verifAnd(dt >= 0, dt < 1<<20))
+	st.now += dt
+	if !st.live() && verifChoose("rival", 2) == 1 {
+		st.exists, st.value, st.expireAt = true, "B", st.now+int64(ttl)
+		verifCover(true, "c15.late.rival-took-lease")
+	}
+	op2 := verifChoose("op2", 2)
+	told2, err2 := call(op2, context.Background())
+	if st.badLua != "" {
+		verifUnsupported("election talks to the store outside the modelled command/script subset: " + st.badLua)
+	}
+	if told2 {
+		verifAssert(st.live() && st.value == "A" && st.expireAt <= st.now+int64(ttl), "C15.told-leader-without-own-lease")
+	} else if op2 == 1 {
+		verifAssert(errors.Is(err2, ErrNotLeader), "C15.failed-renew-not-reported-as-loss")
+	}
+	verifCover(told2, "c15.late.told-leader")
+	verifCover(slow.slowCall == 1 && !told2, "c15.late.refused-after-late-reply")
+	verifReach("c15.late")
+}
